@@ -99,6 +99,13 @@ def length(ev, x):
 
     if isinstance(x, Tup) and not any(isinstance(i, Star) for i in x.items):
         return Const(len(x.items))
+    if type(x) is Tup:
+        # (*a, p, q): the fixed items plus the lengths of the spliced sequences
+        tot = Const(sum(1 for i in x.items if not isinstance(i, Star)))
+        for i in x.items:
+            if isinstance(i, Star):
+                tot = add(tot, length(ev, i.inner))
+        return tot
     if isinstance(x, Lst):
         if not x.pappends and not x.unknown:
             return Const(len(x.items))
